@@ -7,6 +7,7 @@ import (
 	"errors"
 	"fmt"
 	"go/ast"
+	"go/constant"
 	"go/parser"
 	"go/scanner"
 	"os"
@@ -142,8 +143,17 @@ func intGlobals(i *interp.Interpreter) (g map[string]string) {
 	}()
 	g = map[string]string{}
 	for k, v := range i.Globals() {
-		if v.IsValid() && v.CanInt() {
+		switch {
+		case !v.IsValid():
+		case v.CanInt():
 			g[k] = fmt.Sprint(v.Int())
+		case v.CanInterface():
+			// an untyped constant is kept as a go/constant value
+			if cv, ok := v.Interface().(constant.Value); ok && cv.Kind() == constant.Int {
+				if n, exact := constant.Int64Val(cv); exact {
+					g[k] = fmt.Sprint(n)
+				}
+			}
 		}
 	}
 	return g
